@@ -118,7 +118,7 @@ Inductive pshape (N : net) (s : state) (p : pid) (pr : proc) (d : pdesc) (i : in
     s_procs s' = upd (s_procs s) p pr' -> s_wg s' = (if d_wg d then pred (s_wg s) else s_wg s) -> s_oncew s' = s_oncew s ->
     pshape N s p pr d i s'
 | sh_start q qp c pr' :
-    q <> p -> nth_error (s_procs s) q = Some qp -> p_st qp = PNotStarted -> (exists g, In g (instr_ctxs i) /\ c = resolve pr g) ->
+    q <> p -> nth_error (s_procs s) q = Some qp -> p_st qp = PNotStarted -> (exists g, In g (instr_ctxs i) /\ c = resolve pr g) -> (exists g k, i = ISpawn q g k \/ i = IGoOnce q g k) ->
     s_procs s' = upd (upd (s_procs s) q (mkProc PRun 0 (p_hand qp) c)) p pr' ->
     s_wg s' = (if is_wg N q then S (s_wg s) else s_wg s) -> s_oncew s' = s_oncew s -> moved pr pr' i -> pshape N s p pr d i s'
 | sh_once q g k qp pr' :
@@ -252,7 +252,7 @@ Proof.
   pose proof (wf_net_desc N p d Hwf Hd) as Hwd.
   assert (Hin : In i (d_prog d)) by (eapply nth_error_In; eauto).
   assert (Hrun : runb pr = true) by (unfold runb; now rewrite Hr).
-  destruct Hsh as [pr' E1 E2 E3 (M1 & M2 & _) | pr' Ei Est _ E1 E2 E3 | q qp c pr' Hqp Hq Hqs _ E1 E2 E3 (M1 & M2 & _) | q g k qp pr' Ei Hq Hqs E1 E2 E3 (M1 & M2 & _)].
+  destruct Hsh as [pr' E1 E2 E3 (M1 & M2 & _) | pr' Ei Est _ E1 E2 E3 | q qp c pr' Hqp Hq Hqs _ _ E1 E2 E3 (M1 & M2 & _) | q g k qp pr' Ei Hq Hqs E1 E2 E3 (M1 & M2 & _)].
   - (* plain *)
     split.
     + rewrite E1, E2, I1. pose proof (wgc_upd _ _ _ _ pr' _ Hp Hd) as W.
@@ -440,7 +440,7 @@ Proof.
     apply cur_instr_inv in Ec as (Hp & Hd & Hr & Hi).
     assert (Hns : p_st pr <> PNotStarted) by congruence.
     pose proof (exec_shape _ _ _ _ _ _ _ _ Hp Hr H) as Hsh.
-    destruct Hsh as [pr' E1 _ _ (_ & _ & Mc) | pr' _ _ Mc E1 _ _ | q qp c pr' _ Hq _ (g & Hg & ->) E1 _ _ (_ & _ & Mc) | q g k qp pr' _ _ _ E1 _ _ (_ & _ & Mc)];
+    destruct Hsh as [pr' E1 _ _ (_ & _ & Mc) | pr' _ _ Mc E1 _ _ | q qp c pr' _ Hq _ (g & Hg & ->) _ E1 _ _ (_ & _ & Mc) | q g k qp pr' _ _ _ E1 _ _ (_ & _ & Mc)];
       unfold ctx_under; rewrite E1; try (eapply KEEP; eauto; fail).
     eapply KEEP; eauto. intros q0 qr Hq0 Hqs. apply nth_error_upd in Hq0 as [[-> ->]|[Hn Hq0]]; [|eapply U; eauto].
     cbn [p_ctx]. pose proof (static_under_instr N r p d i g Hst Hd (nth_error_In _ _ Hi) Hg) as Hu.
